@@ -573,7 +573,7 @@ def run(ctx):
     if thorough:
         mg, pg = dict(behaviours=7, directed=40, random=150), dict(behaviours=400, directed=12, random=1)
     else:
-        mg, pg = dict(behaviours=3, directed=3, random=3), dict(behaviours=8, directed=2, random=1)    # + preferred
+        mg, pg = dict(behaviours=3, directed=3, random=3), dict(behaviours=12, directed=2, random=1)    # + preferred
     iv = impl_validate(ctx, [(t1, "scripts"), (t2, "random")], kinds_of, mg, pg, jobs=8)
     ctx.extra["impl_trace"] = iv
     ctx.traces_validated += iv["accepted"]
